@@ -623,6 +623,13 @@ func TestCAMImpostor(t *testing.T) {
 			DF:     map[uint16][]byte{},
 			Rand:   detrand.New(chipSeed).Bytes,
 		}
+		// a chip that runs the CAM protocol but stores no EF.CardSecurity (SELECT answers 6A82 under the new
+		// session): there is no certified key to check the chip against, so whatever else happens the
+		// chip-authentication mapping must not be reported successful
+		noCardSecurity := rapid.IntRange(0, 5).Draw(rt, "no-cardsecurity") == 0
+		if noCardSecurity {
+			delete(cfg.MF, chipsim.FidCardSecurity)
+		}
 		chip := chipsim.New(cfg)
 		restore := detrand.Install(libSeed)
 		defer restore()
@@ -633,7 +640,29 @@ func TestCAMImpostor(t *testing.T) {
 			evid.Fail(rt, "cam-setup", nil, "NewCardAccess: %v", err)
 		}
 		doc.Mf.CardAccess = ca
-		res, cam, err := pace.NewPace(nfc, doc, password.NewPasswordCan("123456")).DoPACE()
+		var res *document.PaceResult
+		var cam *document.PaceCamResult
+		var panicked any
+		func() {
+			defer func() { panicked = recover() }()
+			res, cam, err = pace.NewPace(nfc, doc, password.NewPasswordCan("123456")).DoPACE()
+		}()
+		if noCardSecurity {
+			rep := map[string]any{"paramId": id, "cipher": string(cp), "holdsKey": holdsKey, "noCardSecurity": true, "chipSeed": hex.EncodeToString(chipSeed), "libSeed": hex.EncodeToString(libSeed)}
+			evid.Case("cam-without-cardsecurity", true, fmt.Sprintf("%d%s%x%x", id, cp, chipSeed[:4], libSeed[:4]), rep)
+			if panicked != nil {
+				// a crash is C12's subject (finding F19 there); for this property it is simply not a success report
+				evid.Count("cam-without-cardsecurity-panicked(C12)", 1)
+				return
+			}
+			if cam != nil && cam.Success {
+				evid.Fail(rt, "cam-no-cardsecurity", rep, "PACE-CAM reported successful although the chip has no EF.CardSecurity to authenticate against")
+			}
+			return
+		}
+		if panicked != nil {
+			panic(panicked)
+		}
 		rep := map[string]any{"paramId": id, "cipher": string(cp), "holdsKey": holdsKey, "cardSecurityKeys": keyArr, "chipSeed": hex.EncodeToString(chipSeed), "libSeed": hex.EncodeToString(libSeed)}
 		if holdsKey {
 			evid.Case("cam-genuine", true, fmt.Sprintf("%d%s%x%x", id, cp, chipSeed[:4], libSeed[:4]), rep)
